@@ -307,3 +307,64 @@ from_raw_buffer = Contract("C01.DelimitedBuffer.from_raw_buffer", target=lambda:
                            canaries=[("cut one short", "size = delimiters[entry_ends[-1]] + 1", "size = delimiters[entry_ends[-1]]"),
                                      ("first newline instead of last", "size = delimiters[entry_ends[-1]] + 1", "size = delimiters[entry_ends[0]] + 1")])
 CONTRACTS.append(from_raw_buffer)
+
+
+# ---- P3: OneLineBuffer.from_raw_buffer (two-line FASTA, FASTQ): the cut is after the last newline that completes an entry ---------------------
+def _one_line_classes():
+    from bionumpy.io.one_line_buffer import TwoLineFastaBuffer
+    from bionumpy.io.fastq_buffer import FastQBuffer
+    return {"TwoLineFastaBuffer": TwoLineFastaBuffer, "FastQBuffer": FastQBuffer}
+
+
+_h3 = {}
+
+
+def _setup_olb(clsname):
+    def setup(ctx):
+        st = St()
+        st.cls = _one_line_classes()[clsname]
+        st.nper = st.cls.n_lines_per_entry
+        st.N = z3.Int("chunk_len")
+        st.c = z3.Function("c", z3.IntSort(), z3.IntSort())
+        st.args = [st.cls, SArr.fresh(st.N, lambda p: st.c(I(p)))]
+        st.rec = {}
+        _h3["st"] = st
+        return st
+    return setup
+
+
+def _olb_callees():
+    def gbe(ip, args, kwargs, lineno):
+        st = _h3["st"]
+        st.rec["data"], st.rec["new_lines"] = args[1], args[2]
+        return Opaque("buffer extractor")
+    return {"bionumpy.io.one_line_buffer.OneLineBuffer._get_buffer_extractor": gbe,
+            "bionumpy.io.one_line_buffer.OneLineBuffer._validate": lambda ip, args, kwargs, lineno: None,      # contracts/c15.py
+            "bionumpy.io.fastq_buffer.FastQBuffer._validate": lambda ip, args, kwargs, lineno: None}
+
+
+def _ens_olb(ctx, st, ret):
+    data, nl = st.rec["data"], st.rec["new_lines"]
+    cnt = st.ip.last_locals["n_lines"]
+    m = nl.length
+    q, r = M._divmod_noassert(m, st.nper)
+    return [("whole.entries.only", And(r == 0, I(m) >= st.nper, I(m) <= I(cnt), I(cnt) < I(m) + st.nper)),
+            ("X1: 1 <= size <= |chunk| and the data handed on is chunk[:size]", And(I(data.length) >= 1, I(data.length) <= st.N)),
+            ("X1: content", Forall(lambda p: Implies(in_range(p, data.length), data.at(p) == st.c(p)))),
+            ("cut.is.just.after.the.last.newline.of.the.last.whole.entry", I(data.length) == I(nl.at(I(m) - 1)) + 1),
+            ("newline.table: increasing positions of newline bytes", Forall(lambda t: Implies(in_range(t, m), And(in_range(nl.at(t), data.length), st.c(nl.at(t)) == 10,
+                                                                                                            Implies(t + 1 < I(m), I(nl.at(t)) < I(nl.at(t + 1)))))))]
+
+
+def _mk_olb(clsname):
+    return Contract("C01.OneLineBuffer.from_raw_buffer[%s]" % clsname, target=lambda: _one_line_classes()[clsname].from_raw_buffer.__func__,
+                    setup=_setup_olb(clsname), requires=lambda ctx, st: [st.N >= 0, Forall(lambda p: And(st.c(p) >= 0, st.c(p) < 256), triggers=[st.c], name="bytes")],
+                    ensures=_ens_olb, callees=_olb_callees(),
+                    raises={"IncompleteEntryException": lambda ctx, st: [("only.when.fewer.newlines.than.lines.per.entry", I(st.ip.last_locals["n_lines"]) < st.nper)]},
+                    decorators={"@classmethod": "receiver is the real subclass"}, dropped=["docstring", "exception message"],
+                    canaries=[("partial entry kept", "new_lines[: n_lines - (n_lines % cls.n_lines_per_entry)]", "new_lines[: n_lines]"),
+                              ("cut before the newline", "data = chunk[: new_lines[-1] + 1]", "data = chunk[: new_lines[-1]]")])
+
+
+olb_fasta, olb_fastq = _mk_olb("TwoLineFastaBuffer"), _mk_olb("FastQBuffer")
+CONTRACTS += [olb_fasta, olb_fastq]
